@@ -83,6 +83,9 @@ func (g *Gen) genC07() {
 				h.name = r.HdrName(t)
 			case 1:
 				h.name = r.Alnum(1, 14)
+				if r.P(40) {
+					h.name = r.HdrName(14) // incl. names over the whole RFC token set and one-byte non-letter names
+				}
 			case 2:
 				h.name = r.ReCase(otherNames[r.N(len(otherNames))])
 			default:
@@ -657,19 +660,19 @@ func (g *Gen) genC14() {
 	if g.tier != "thorough" {
 		// quick tier: the structural delimiters alone, two more bytes deep (every back-tracking path of the automaton —
 		// bracketed host, port, parameters, headers re-attributed to the user part by a late '@' — needs 5 or 6 bytes)
-		alpha, maxLen = ":@;?[]a", 6
-		schemes = []string{"sip:", "tel:"}
+		alpha2, maxLen2 := ":@;?[]a", 6
+		schemes2 := []string{"sip:", "tel:"}
 		var rec2 func(p []byte)
 		rec2 = func(p []byte) {
 			if len(p) > 4 {
-				for _, s := range schemes {
+				for _, s := range schemes2 {
 					g.c14case(s+string(p), "exhaustive-structural-alphabet")
 				}
 			}
-			if len(p) >= maxLen {
+			if len(p) >= maxLen2 {
 				return
 			}
-			for _, c := range []byte(alpha) {
+			for _, c := range []byte(alpha2) {
 				rec2(append(p, c))
 			}
 		}
@@ -763,6 +766,9 @@ func (g *Gen) genC15() {
 		}
 		if r.P(6) { // long lists: 17 … 40 URI headers / parameters (more than any small fixed-size scratch array)
 			n := 17 + r.N(24)
+			if r.P(30) { // around the size of the library's own scratch arrays (100 entries)
+				n = []int{99, 100, 101, 102, 130}[r.N(5)]
+			}
 			var items []string
 			for k := 0; k < n; k++ {
 				items = append(items, fmt.Sprintf("x-h%d=%s", k, r.Alnum(1, 4)))
@@ -817,6 +823,9 @@ func (g *Gen) genC15() {
 				k := r.N(len(items))
 				nv := strings.SplitN(items[k], "=", 2)
 				items[k] = nv[0] + "=" + "zz" + r.Alnum(1, 3)
+				for len(nv) == 2 && asciiLower(items[k]) == asciiLower(nv[0]+"="+nv[1]) {
+					items[k] = nv[0] + "=" + "zz" + r.Alnum(1, 3)
+				}
 				var extra []string
 				for e := 0; e < r.N(4); e++ {
 					extra = append(extra, "y"+r.Alnum(2, 5)+"="+r.Alnum(1, 3))
@@ -865,7 +874,14 @@ func (g *Gen) genC15() {
 			pairs = append(pairs, fmt.Sprintf("uricmp %d %s %s %s %s %s %s", f, hx(a), hx(bq), hx(bq), hx(a), hx(a), hx(a)))
 		}
 		ee, kk := expectEq, kind
-		g.add(Case{Prop: "C15", Desc: kind, Lines: pairs, Check: func(out []string) string {
+		over100 := strings.Count(p.Params, ";") >= 100 || strings.Count(p.Headers, "&") >= 100 ||
+			strings.Count(q.Params, ";") >= 100 || strings.Count(q.Headers, "&") >= 100
+		g.add(Case{Prop: "C15", Desc: kind, Lines: pairs, Check: func(out []string) (res string) {
+			defer func() {
+				if res != "" && over100 {
+					res = "more than 100 URI parameters / headers: " + res
+				}
+			}()
 			return protect(func() string {
 				ba, bb := []byte(a), []byte(bq)
 				var ua, ub sipsp.PsipURI
